@@ -98,53 +98,46 @@ Section Spec.
     end.
 
   (* ---------------------------------------------------------------- domain of the theorem *)
-  (* class: any value (names separated by whitespace); id, other attributes: name and value without line breaks *)
+  (* class: any value (names separated by whitespace); id, other attributes: name and value without CR / LF *)
   Definition attr_wf (a : aattr) : bool :=
     if name_is a s_class then true
-    else (is_primary a || nolb (match aa_name a with Some x => x | None => [] end))
-         && match aa_value a with Some v => toks_nolb v | None => true end.
+    else (is_primary a || nocrlf (match aa_name a with Some x => x | None => [] end))
+         && match aa_value a with Some v => toks_nocrlf v | None => true end.
 
   Fixpoint node_wf (n : anode) : bool :=
     match n with
     | ANode nm v _ at_ ch _ =>
         negb (is_snippet n)                               (* an element: it has a name or attributes *)
-        && nolb (match nm with Some x => x | None => [] end)
+        && nocrlf (match nm with Some x => x | None => [] end)
         && forallb attr_wf (attrs_of n)
         && forallb node_wf ch
     end.
 
   (* punctuation that goes through push_string *)
   Definition iopts_wf : bool :=
-    nolb (io_before_name o) && nolb (io_after_name o) && nolb (io_before_attr o) && nolb (io_after_attr o)
-    && nolb (io_glue_attr o) && nolb (io_boolean_value o) && nolb (io_self_close o).
+    nocrlf (io_before_name o) && nocrlf (io_after_name o) && nocrlf (io_before_attr o) && nocrlf (io_after_attr o)
+    && nocrlf (io_glue_attr o) && nocrlf (io_boolean_value o) && nocrlf (io_self_close o).
 End Spec.
 
 (* ================================================================ auxiliary facts *)
-Lemma lower_c_lb ch : is_linebreak (lower_c ch) = is_linebreak ch.
+Lemma letter_not_crlf x : (65 <= x <= 122)%N -> is_crlf x = false.
+Proof.
+  intros Hx. unfold is_crlf, c_cr, c_nl.
+  destruct (N.eqb_spec x 13); destruct (N.eqb_spec x 10); try reflexivity; lia.
+Qed.
+Lemma lower_c_lb ch : is_crlf (lower_c ch) = is_crlf ch.
 Proof.
   unfold lower_c. destruct (in_range c_A c_Z ch) eqn:E; [|reflexivity].
   unfold in_range, c_A, c_Z in E. apply andb_true_iff in E. destruct E as [E1 E2].
   apply N.leb_le in E1. apply N.leb_le in E2.
-  assert (G : forall x, (65 <= x <= 122)%N -> is_linebreak x = false).
-  { intros x Hx. unfold is_linebreak. destruct (existsb (N.eqb x) py_linebreaks) eqn:Ex; [|reflexivity].
-    apply existsb_exists in Ex. destruct Ex as [y [Hin Hy]]. apply N.eqb_eq in Hy. subst y.
-    assert (F : forallb (fun y => (y <? 65)%N || (122 <? y)%N) py_linebreaks = true) by (vm_compute; reflexivity).
-    rewrite forallb_forall in F. specialize (F x Hin). apply orb_true_iff in F.
-    destruct F as [F|F]; apply N.ltb_lt in F; lia. }
-  rewrite (G ch) by lia. apply G. lia.
+  rewrite (letter_not_crlf ch) by lia. apply letter_not_crlf. lia.
 Qed.
-Lemma upper_c_lb ch : is_linebreak (upper_c ch) = is_linebreak ch.
+Lemma upper_c_lb ch : is_crlf (upper_c ch) = is_crlf ch.
 Proof.
   unfold upper_c. destruct (in_range c_a c_z ch) eqn:E; [|reflexivity].
   unfold in_range, c_a, c_z in E. apply andb_true_iff in E. destruct E as [E1 E2].
   apply N.leb_le in E1. apply N.leb_le in E2.
-  assert (G : forall x, (65 <= x <= 122)%N -> is_linebreak x = false).
-  { intros x Hx. unfold is_linebreak. destruct (existsb (N.eqb x) py_linebreaks) eqn:Ex; [|reflexivity].
-    apply existsb_exists in Ex. destruct Ex as [y [Hin Hy]]. apply N.eqb_eq in Hy. subst y.
-    assert (F : forallb (fun y => (y <? 65)%N || (122 <? y)%N) py_linebreaks = true) by (vm_compute; reflexivity).
-    rewrite forallb_forall in F. specialize (F x Hin). apply orb_true_iff in F.
-    destruct F as [F|F]; apply N.ltb_lt in F; lia. }
-  rewrite (G ch) by lia. apply G. lia.
+  rewrite (letter_not_crlf ch) by lia. apply letter_not_crlf. lia.
 Qed.
 
 Lemma forallb_map_ {A B} (g : A -> B) (p : B -> bool) l : forallb p (map g l) = forallb (fun x => p (g x)) l.
@@ -152,14 +145,14 @@ Proof. induction l as [|x l IH]; [reflexivity|]. cbn [map forallb]. rewrite IH. 
 Lemma forallb_ext_ {A} (p q : A -> bool) l : (forall x, p x = q x) -> forallb p l = forallb q l.
 Proof. intros H. induction l as [|x l IH]; [reflexivity|]. cbn [forallb]. rewrite H, IH. reflexivity. Qed.
 
-Lemma nolb_str_case s k : nolb (str_case s k) = nolb s.
+Lemma nocrlf_str_case s k : nocrlf (str_case s k) = nocrlf s.
 Proof.
   unfold str_case. destruct k as [|k0 k]; [reflexivity|].
-  destruct (str_eqb (k0 :: k) s_upper); unfold nolb, upper, lower; rewrite forallb_map_;
+  destruct (str_eqb (k0 :: k) s_upper); unfold nocrlf, upper, lower; rewrite forallb_map_;
     apply forallb_ext_; intros x; [rewrite upper_c_lb|rewrite lower_c_lb]; reflexivity.
 Qed.
 
-Lemma nolb_attr_quote c a b : nolb (attr_quote c a b) = true.
+Lemma nocrlf_attr_quote c a b : nocrlf (attr_quote c a b) = true.
 Proof.
   unfold attr_quote. destruct (aa_vtype a); destruct b; try destruct (str_eqb _ _); vm_compute; reflexivity.
 Qed.
@@ -171,19 +164,19 @@ Proof.
   apply negb_true_iff in Hc. cbn [ws_to_dot]. rewrite Hc, (IH false Hs). reflexivity.
 Qed.
 
-Lemma nolb_ws_to_dot : forall s b, nolb (ws_to_dot b s) = true.
+Lemma nocrlf_ws_to_dot : forall s b, nocrlf (ws_to_dot b s) = true.
 Proof.
   induction s as [|ch s IH]; intros b; [reflexivity|]. cbn [ws_to_dot].
   destruct (is_py_space ch) eqn:E.
-  - destruct b; [apply IH|]. cbn [nolb forallb]. fold (nolb (ws_to_dot true s)). rewrite IH. reflexivity.
-  - cbn [nolb forallb]. fold (nolb (ws_to_dot false s)). rewrite IH.
-    destruct (is_linebreak ch) eqn:E2; [apply linebreak_is_space in E2; congruence|reflexivity].
+  - destruct b; [apply IH|]. cbn [nocrlf forallb]. fold (nocrlf (ws_to_dot true s)). rewrite IH. reflexivity.
+  - cbn [nocrlf forallb]. fold (nocrlf (ws_to_dot false s)). rewrite IH.
+    destruct (is_crlf ch) eqn:E2; [apply linebreak_is_space in E2; congruence|reflexivity].
 Qed.
 
-Lemma toks_nolb_class v : toks_nolb (map class_tok v) = true.
+Lemma toks_nocrlf_class v : toks_nocrlf (map class_tok v) = true.
 Proof.
-  induction v as [|t v IH]; [reflexivity|]. cbn [map toks_nolb forallb]. fold (toks_nolb (map class_tok v)).
-  rewrite IH. destruct t; cbn [class_tok tok_nolb]; [rewrite nolb_ws_to_dot|]; reflexivity.
+  induction v as [|t v IH]; [reflexivity|]. cbn [map toks_nocrlf forallb]. fold (toks_nocrlf (map class_tok v)).
+  rewrite IH. destruct t; cbn [class_tok tok_nocrlf]; [rewrite nocrlf_ws_to_dot|]; reflexivity.
 Qed.
 
 (* class names joined by spaces are written joined by dots *)
@@ -222,7 +215,7 @@ Definition sbl_step : (list (list vtok) * list vtok) -> vtok -> (list (list vtok
   fun '(result, line) t =>
     match t with
     | VStr s =>
-        match splitlines s with
+        match split_crlf s with
         | [] => (result, line ++ [VStr []])
         | l0 :: ls => fold_left (fun '(res, ln) l => (res ++ [ln], [VStr l])) ls (result, line ++ [VStr l0])
         end
@@ -234,51 +227,51 @@ Lemma split_by_lines_eq v :
                      match line with [] => result | _ => result ++ [line] end.
 Proof. reflexivity. Qed.
 
-Lemma sbl_fold_nolb : forall v result line, toks_nolb v = true ->
+Lemma sbl_fold_nocrlf : forall v result line, toks_nocrlf v = true ->
   fold_left sbl_step v (result, line) = (result, line ++ v).
 Proof.
   induction v as [|t v IH]; intros result line H.
   - cbn [fold_left]. rewrite app_nil_r. reflexivity.
-  - cbn [toks_nolb forallb] in H. fold (toks_nolb v) in H. apply andb_true_iff in H. destruct H as [Ht Hv].
+  - cbn [toks_nocrlf forallb] in H. fold (toks_nocrlf v) in H. apply andb_true_iff in H. destruct H as [Ht Hv].
     cbn [fold_left].
     assert (E : sbl_step (result, line) t = (result, line ++ [t])).
-    { destruct t as [s|i nm]; [|reflexivity]. cbn [tok_nolb] in Ht. unfold sbl_step.
-      rewrite (splitlines_nolb s Ht). destruct s; reflexivity. }
+    { destruct t as [s|i nm]; [|reflexivity]. cbn [tok_nocrlf] in Ht. unfold sbl_step.
+      rewrite (split_crlf_nocrlf s Ht). destruct s; reflexivity. }
     rewrite E, (IH _ _ Hv), <- app_assoc. reflexivity.
 Qed.
 
-Lemma split_by_lines_single v : toks_nolb v = true -> v <> [] -> split_by_lines v = [v].
+Lemma split_by_lines_single v : toks_nocrlf v = true -> v <> [] -> split_by_lines v = [v].
 Proof.
-  intros H Hne. rewrite split_by_lines_eq, (sbl_fold_nolb v [] [] H). cbn [app].
+  intros H Hne. rewrite split_by_lines_eq, (sbl_fold_nocrlf v [] [] H). cbn [app].
   destruct v; [contradiction|reflexivity].
 Qed.
 
-(* every line produced by splitlines / split_by_lines is free of line breaks *)
-Lemma nolb_rev cur : nolb cur = true -> nolb (rev cur) = true.
-Proof. intros H. unfold nolb in *. rewrite forallb_forall in *. intros x Hx. apply H, in_rev, Hx. Qed.
+(* every line produced by split_crlf / split_by_lines is free of CR and LF *)
+Lemma nocrlf_rev cur : nocrlf cur = true -> nocrlf (rev cur) = true.
+Proof. intros H. unfold nocrlf in *. rewrite forallb_forall in *. intros x Hx. apply H, in_rev, Hx. Qed.
 
-Lemma splitlines_aux_pieces : forall n s cur, length s <= n -> nolb cur = true ->
-  Forall (fun l => nolb l = true) (splitlines_aux s cur).
+Lemma split_crlf_aux_pieces : forall n s cur, length s <= n -> nocrlf cur = true ->
+  Forall (fun l => nocrlf l = true) (split_crlf_aux s cur).
 Proof.
   induction n as [|n IH]; intros s cur Hl Hc; destruct s as [|ch s]; cbn [length] in Hl; try lia.
-  - cbn [splitlines_aux]. destruct cur; [constructor|]. constructor; [apply nolb_rev, Hc|constructor].
-  - cbn [splitlines_aux]. destruct cur; [constructor|]. constructor; [apply nolb_rev, Hc|constructor].
-  - cbn [splitlines_aux]. destruct (is_linebreak ch) eqn:E.
+  - cbn [split_crlf_aux]. destruct cur; [constructor|]. constructor; [apply nocrlf_rev, Hc|constructor].
+  - cbn [split_crlf_aux]. destruct cur; [constructor|]. constructor; [apply nocrlf_rev, Hc|constructor].
+  - cbn [split_crlf_aux]. fold (is_crlf ch). destruct (is_crlf ch) eqn:E.
     + destruct s as [|c2 s'].
-      * constructor; [apply nolb_rev, Hc|constructor].
+      * constructor; [apply nocrlf_rev, Hc|constructor].
       * cbn [length] in Hl.
         destruct ((ch =? c_cr)%N && (c2 =? c_nl)%N);
-          (constructor; [apply nolb_rev, Hc|apply IH; [cbn [length]; lia|reflexivity]]).
-    + apply IH; [lia|]. cbn [nolb forallb]. rewrite E. cbn [negb andb]. exact Hc.
+          (constructor; [apply nocrlf_rev, Hc|apply IH; [cbn [length]; lia|reflexivity]]).
+    + apply IH; [lia|]. cbn [nocrlf forallb]. rewrite E. cbn [negb andb]. exact Hc.
 Qed.
 
-Lemma splitlines_pieces s : Forall (fun l => nolb l = true) (splitlines s).
-Proof. unfold splitlines. apply (splitlines_aux_pieces (length s)); [lia|reflexivity]. Qed.
+Lemma split_crlf_pieces s : Forall (fun l => nocrlf l = true) (split_crlf s).
+Proof. unfold split_crlf. apply (split_crlf_aux_pieces (length s)); [lia|reflexivity]. Qed.
 
 Lemma sbl_inner_pieces : forall ls res ln,
-  Forall (fun l => toks_nolb l = true) res -> toks_nolb ln = true -> Forall (fun l => nolb l = true) ls ->
+  Forall (fun l => toks_nocrlf l = true) res -> toks_nocrlf ln = true -> Forall (fun l => nocrlf l = true) ls ->
   let '(res', ln') := fold_left (fun '(res, ln) l => (res ++ [ln], [VStr l])) ls (res, ln) in
-  Forall (fun l => toks_nolb l = true) res' /\ toks_nolb ln' = true.
+  Forall (fun l => toks_nocrlf l = true) res' /\ toks_nocrlf ln' = true.
 Proof.
   induction ls as [|l ls IH]; intros res ln Hr Hl Hls; cbn [fold_left].
   - split; assumption.
@@ -286,28 +279,28 @@ Proof.
     apply Forall_app. split; [assumption|constructor; [assumption|constructor]].
 Qed.
 
-Lemma toks_nolb_app a b : toks_nolb (a ++ b) = toks_nolb a && toks_nolb b.
-Proof. unfold toks_nolb. apply forallb_app. Qed.
+Lemma toks_nocrlf_app a b : toks_nocrlf (a ++ b) = toks_nocrlf a && toks_nocrlf b.
+Proof. unfold toks_nocrlf. apply forallb_app. Qed.
 
 Lemma sbl_fold_pieces : forall v res ln,
-  Forall (fun l => toks_nolb l = true) res -> toks_nolb ln = true ->
+  Forall (fun l => toks_nocrlf l = true) res -> toks_nocrlf ln = true ->
   let '(res', ln') := fold_left sbl_step v (res, ln) in
-  Forall (fun l => toks_nolb l = true) res' /\ toks_nolb ln' = true.
+  Forall (fun l => toks_nocrlf l = true) res' /\ toks_nocrlf ln' = true.
 Proof.
   induction v as [|t v IH]; intros res ln Hr Hl; cbn [fold_left].
   - split; assumption.
   - destruct t as [s|i nm]; cbn [sbl_step].
-    + pose proof (splitlines_pieces s) as Hp. destruct (splitlines s) as [|l0 ls].
-      * apply IH; [assumption|]. rewrite toks_nolb_app, Hl. reflexivity.
+    + pose proof (split_crlf_pieces s) as Hp. destruct (split_crlf s) as [|l0 ls].
+      * apply IH; [assumption|]. rewrite toks_nocrlf_app, Hl. reflexivity.
       * inversion Hp; subst.
         pose proof (sbl_inner_pieces ls res (ln ++ [VStr l0]) Hr) as G.
         destruct (fold_left _ ls (res, ln ++ [VStr l0])) as [res' ln'].
-        destruct G as [G1 G2]; [rewrite toks_nolb_app, Hl; cbn; rewrite H1; reflexivity|assumption|].
+        destruct G as [G1 G2]; [rewrite toks_nocrlf_app, Hl; cbn; rewrite H1; reflexivity|assumption|].
         apply IH; assumption.
-    + apply IH; [assumption|]. rewrite toks_nolb_app, Hl. reflexivity.
+    + apply IH; [assumption|]. rewrite toks_nocrlf_app, Hl. reflexivity.
 Qed.
 
-Lemma split_by_lines_pieces v : Forall (fun l => toks_nolb l = true) (split_by_lines v).
+Lemma split_by_lines_pieces v : Forall (fun l => toks_nocrlf l = true) (split_by_lines v).
 Proof.
   rewrite split_by_lines_eq. pose proof (sbl_fold_pieces v [] [] (Forall_nil _) eq_refl) as G.
   destruct (fold_left sbl_step v ([], [])) as [res ln]. destruct G as [G1 G2].
@@ -318,7 +311,7 @@ Qed.
 Lemma sbl_step_single res ln t : tok_single t = true -> sbl_step (res, ln) t = (res, ln ++ [first_line t]).
 Proof.
   destruct t as [s|i nm]; [|reflexivity]. cbn [tok_single sbl_step first_line].
-  destruct (splitlines s) as [|l0 [|l1 ls]]; try discriminate; reflexivity.
+  destruct (split_crlf s) as [|l0 [|l1 ls]]; try discriminate; reflexivity.
 Qed.
 Lemma sbl_fold_single : forall v res ln, forallb tok_single v = true ->
   fold_left sbl_step v (res, ln) = (res, ln ++ map first_line v).
@@ -344,7 +337,7 @@ Lemma sbl_step_grow res ln t :
   length res <= length res' /\ ln' <> [] /\ (tok_single t = false -> length res < length res').
 Proof.
   destruct t as [s|i nm]; cbn [sbl_step tok_single].
-  - destruct (splitlines s) as [|l0 [|l1 ls]].
+  - destruct (split_crlf s) as [|l0 [|l1 ls]].
     + repeat split; [lia|destruct ln; discriminate|discriminate].
     + cbn [fold_left]. repeat split; [lia|destruct ln; discriminate|discriminate].
     + pose proof (sbl_inner_grow (l1 :: ls) res (ln ++ [VStr l0])) as G.
@@ -408,9 +401,9 @@ Section Proofs.
   Proof. induction l as [|x l IH]; [reflexivity|]. cbn [flat_map map concat]. rewrite emit_app, IH. reflexivity. Qed.
 
   Lemma Ho_parts :
-    nolb (io_before_name o) = true /\ nolb (io_after_name o) = true /\ nolb (io_before_attr o) = true /\
-    nolb (io_after_attr o) = true /\ nolb (io_glue_attr o) = true /\ nolb (io_boolean_value o) = true /\
-    nolb (io_self_close o) = true.
+    nocrlf (io_before_name o) = true /\ nocrlf (io_after_name o) = true /\ nocrlf (io_before_attr o) = true /\
+    nocrlf (io_after_attr o) = true /\ nocrlf (io_glue_attr o) = true /\ nocrlf (io_boolean_value o) = true /\
+    nocrlf (io_self_close o) = true.
   Proof.
     pose proof Ho as H. unfold iopts_wf in H. repeat (apply andb_true_iff in H; destruct H as [H ?]). repeat split; assumption.
   Qed.
@@ -426,7 +419,7 @@ Section Proofs.
     destruct (aa_value a) as [v|]; [|apply appends_refl].
     destruct (name_is a s_class).
     - eapply (appends_trans _ _ _ [c_dot] (val_text (map class_tok v))); [apply appends_push_str; reflexivity|].
-      apply appends_push_tokens, toks_nolb_class.
+      apply appends_push_tokens, toks_nocrlf_class.
     - apply andb_true_iff in Hw. destruct Hw as [_ Hw].
       eapply (appends_trans _ _ _ [c_hash] (val_text v)); [apply appends_push_str; reflexivity|].
       apply appends_push_tokens, Hw.
@@ -434,8 +427,8 @@ Section Proofs.
 
   (* ---------------------------------------------------------------- attribute list *)
   Definition sec_wf (a : aattr) : Prop :=
-    nolb (match aa_name a with Some x => x | None => [] end) = true
-    /\ match aa_value a with Some v => toks_nolb v = true | None => True end.
+    nocrlf (match aa_name a with Some x => x | None => [] end) = true
+    /\ match aa_value a with Some v => toks_nocrlf v = true | None => True end.
 
   Definition attr_step (a : aattr) (st : fstate) : fstate :=
     let st := push_str c (attr_name c (match aa_name a with Some x => x | None => [] end)) st in
@@ -452,16 +445,16 @@ Section Proofs.
   Proof.
     intros [Hn Hv]. destruct Ho_parts as [_ [_ [_ [_ [_ [Hb _]]]]]].
     unfold attr_step, attr_text. cbv zeta.
-    eapply appends_trans; [apply appends_push_str; unfold attr_name; rewrite nolb_str_case; exact Hn|].
+    eapply appends_trans; [apply appends_push_str; unfold attr_name; rewrite nocrlf_str_case; exact Hn|].
     destruct (is_boolean_attribute c a && negb (truthy_l (aa_value a))).
     - unfold is_nil. destruct (negb (oc_compact_boolean c) && negb match io_boolean_value o with [] => true | _ => false end).
-      + apply appends_push_str. cbn [nolb forallb]. fold (nolb (io_boolean_value o)). rewrite Hb. reflexivity.
+      + apply appends_push_str. cbn [nocrlf forallb]. fold (nocrlf (io_boolean_value o)). rewrite Hb. reflexivity.
       + apply appends_refl.
     - change (c_eq :: attr_quote c a true ++ val_text (value_or_caret (aa_value a)) ++ attr_quote c a false)
         with ((c_eq :: attr_quote c a true) ++ val_text (value_or_caret (aa_value a)) ++ attr_quote c a false).
-      eapply appends_trans; [apply appends_push_str; cbn [nolb forallb]; fold (nolb (attr_quote c a true));
-                             rewrite nolb_attr_quote; reflexivity|].
-      eapply appends_trans; [|apply appends_push_str, nolb_attr_quote].
+      eapply appends_trans; [apply appends_push_str; cbn [nocrlf forallb]; fold (nocrlf (attr_quote c a true));
+                             rewrite nocrlf_attr_quote; reflexivity|].
+      eapply appends_trans; [|apply appends_push_str, nocrlf_attr_quote].
       apply appends_push_tokens. unfold value_or_caret.
       destruct (aa_value a) as [[|t v]|]; try reflexivity. exact Hv.
   Qed.
@@ -536,7 +529,7 @@ Section Proofs.
     | a => push_raw a (push_raw (repeat_str [c_space] (w - value_length line)) st)
     end.
 
-  Lemma text_step_spec w d st line : toks_nolb line = true -> lvl st = Z.of_nat d ->
+  Lemma text_step_spec w d st line : toks_nocrlf line = true -> lvl st = Z.of_nat d ->
     appends st (text_step w st line) (nlb f ++ text_line c o d w line).
   Proof.
     intros Hline HL. unfold text_step. cbv zeta.
@@ -556,7 +549,7 @@ Section Proofs.
   Qed.
 
   Lemma text_block_spec lines w st (d : nat) :
-    Forall (fun l => toks_nolb l = true) lines -> lvl st = Z.of_nat d ->
+    Forall (fun l => toks_nocrlf l = true) lines -> lvl st = Z.of_nat d ->
     appends st
       (map_out (fun os => os_add_level os (-1)) (fold_left (text_step w) lines (map_out (fun os => os_add_level os 1) st)))
       (emit (map (text_line c o (S d) w) lines)).
@@ -566,7 +559,7 @@ Section Proofs.
     { unfold st1, lvl, map_out. cbn [fs_out]. rewrite level_add_level. fold (lvl st). lia. }
     assert (F : appends st1 (fold_left (text_step w) lines st1)
                         (concat (map (fun line => nlb f ++ text_line c o (S d) w line) lines))).
-    { apply (appends_fold_lvl (Z.of_nat (S d)) (text_step w) _ (fun l => toks_nolb l = true)); [|exact Hl|exact L1].
+    { apply (appends_fold_lvl (Z.of_nat (S d)) (text_step w) _ (fun l => toks_nocrlf l = true)); [|exact Hl|exact L1].
       intros st' line Hline HL'. apply text_step_spec; assumption. }
     destruct F as [FV FL]. split.
     - unfold val, map_out in *. cbn [fs_out] in *. rewrite value_add_level, FV.
@@ -648,7 +641,7 @@ Section Proofs.
 
   Lemma node_wf_eq n :
     node_wf n = negb (is_snippet n)
-                && nolb (match an_name n with Some x => x | None => [] end)
+                && nocrlf (match an_name n with Some x => x | None => [] end)
                 && forallb attr_wf (attrs_of n)
                 && forallb node_wf (an_children n).
   Proof. destruct n; reflexivity. Qed.
@@ -669,7 +662,7 @@ Section Proofs.
   Lemma emit_node_true d n : emit_node true d n = emit (node_lines c o d n).
   Proof. unfold emit_node. rewrite node_lines_eq. unfold emit. cbn [map concat]. rewrite app_assoc. reflexivity. Qed.
 
-  Lemma name_spec node st : nolb (match an_name node with Some x => x | None => [] end) = true ->
+  Lemma name_spec node st : nocrlf (match an_name node with Some x => x | None => [] end) = true ->
     appends st (st_name node st)
       (match an_name node with
        | Some ((_ :: _) as nm) =>
@@ -681,7 +674,7 @@ Section Proofs.
     destruct (an_name node) as [[|c0 nm]|]; try apply appends_refl.
     rewrite <- negb_andb. destruct (str_eqb (c0 :: nm) s_div && has_class_or_id node); cbn [negb].
     - apply appends_refl.
-    - apply appends_push_str. rewrite !nolb_app, Hb, Ha, Hn. reflexivity.
+    - apply appends_push_str. rewrite !nocrlf_app, Hb, Ha, Hn. reflexivity.
   Qed.
 
   Lemma attrs_spec node st : forallb attr_wf (attrs_of node) = true ->
